@@ -1222,11 +1222,13 @@ def remap_path(
         scheme = urllib.parse.urlsplit(path).scheme
         if scheme == "file":
             return "file://{}".format(
-                path_processor.join(
-                    new_dir,
-                    *os.path.relpath(urllib.parse.unquote(path[7:]), old_dir).split(
-                        os.path.sep
-                    ),
+                urllib.parse.quote(
+                    path_processor.join(
+                        new_dir,
+                        *os.path.relpath(urllib.parse.unquote(path[7:]), old_dir).split(
+                            os.path.sep
+                        ),
+                    )
                 )
             )
         else:
